@@ -728,7 +728,7 @@ Lemma scan_loop_code (f : nat) (asm : bool) (rem out : string) (ins : bool) (st 
                      | Some (b, t) => (b, Some t)
                      | None => (pre, None)
                      end in
-  if negb (starts_with "#include" (trim_start s2)) && negb asm then
+  if negb (is_include_line s2) && negb asm then
     match split_once """" s2 with
     | Some (lft, _) =>
         match find_close (S (String.length rem)) (string_drop (S (String.length lft)) rem) "" with
@@ -774,7 +774,7 @@ Proof.
   rewrite scan_loop_code; [|exact Hc|apply String.eqb_neq; exact Hp].
   rewrite (before_none _ _ Cs). cbv zeta. rewrite (split_once_none _ _ Cb).
   rewrite (split_once_none _ _ Cq).
-  destruct (negb (starts_with "#include" (trim_start p)) && negb asm); reflexivity.
+  destruct (negb (is_include_line p) && negb asm); reflexivity.
 Qed.
 
 (** * Literals are opaque (C09) *)
@@ -801,6 +801,21 @@ Proof.
   - cbn [append trim_start]. destruct (is_ws x); [exact IH|reflexivity].
 Qed.
 
+(** text that is not an #include line does not become one when a character that is neither white
+    space nor a letter of "include" (nor '#') is appended *)
+Lemma is_include_line_blocked (a : string) (c : ascii) (z : string) :
+  is_ws c = false -> Ascii.eqb c "#" = false ->
+  forall not_in_word : contains (String c "") "include" = false,
+  is_include_line a = false -> is_include_line (a ++ String c z) = false.
+Proof.
+  intros Hw Hh Hc H. unfold is_include_line in *.
+  rewrite (trim_start_app_nonws a c z Hw).
+  destruct (trim_start a) as [|h r].
+  - cbn [append]. rewrite Hh. reflexivity.
+  - cbn [append]. destruct (Ascii.eqb h "#"); [|reflexivity]. cbn [andb] in *.
+    rewrite (trim_start_app_nonws r c z Hw). apply starts_with_blocked; assumption.
+Qed.
+
 (** S2 *)
 Theorem scan_literal_opaque : forall pre body post st fuel out ins,
   sc_in_comment st = false -> no_markers pre -> scannable body ->
@@ -822,9 +837,8 @@ Proof.
   rewrite (before_skip "//" (pre ++ """") R (A _ _ _ Ms eq_refl eq_refl)).
   cbv zeta.
   rewrite (split_once_skip "/*" (pre ++ """") (before "//" R) (A _ _ _ Mb eq_refl eq_refl)).
-  assert (B : forall z, starts_with "#include" (trim_start ((pre ++ """") ++ z)) = false).
-  { intros z. rewrite s_app_assoc. cbn [append]. rewrite trim_start_app_nonws by reflexivity.
-    apply starts_with_blocked; [exact Mi|reflexivity]. }
+  assert (B : forall z, is_include_line ((pre ++ """") ++ z) = false).
+  { intros z. rewrite s_app_assoc. cbn [append]. apply is_include_line_blocked; [reflexivity|reflexivity|reflexivity|exact Mi]. }
   assert (Q : forall z, split_once """" ((pre ++ """") ++ z) = Some (pre, z)).
   { intros z. rewrite s_app_assoc. apply split_once_char. exact Mq. }
   assert (F : find_close (S (String.length ((pre ++ """") ++ R)))
@@ -934,7 +948,7 @@ Proof.
   rewrite (split_once_none _ _ Mb), (split_once_none _ _ Mq).
   unfold plain_of. cbn [append].
   assert (E : String.eqb pre "" = false) by (apply String.eqb_neq; exact Hp).
-  rewrite E. destruct (negb (starts_with "#include" (trim_start pre)) && negb asm); reflexivity.
+  rewrite E. destruct (negb (is_include_line pre) && negb asm); reflexivity.
 Qed.
 Print Assumptions line_comment_dropped.
 
@@ -990,11 +1004,11 @@ Proof.
   rewrite B. cbv zeta.
   rewrite (split_once_2_distinct "/" "*" pre (before "//" z) ltac:(discriminate) Mb).
   rewrite (split_once_none _ _ Mq).
-  replace (if negb (starts_with "#include" (trim_start pre)) && negb asm
+  replace (if negb (is_include_line pre) && negb asm
            then plain_of f asm (pre ++ "/*" ++ z) out ins st pre (Some (before "//" z))
            else plain_of f asm (pre ++ "/*" ++ z) out ins st pre (Some (before "//" z)))
     with (plain_of f asm (pre ++ "/*" ++ z) out ins st pre (Some (before "//" z)))
-    by (destruct (negb (starts_with "#include" (trim_start pre)) && negb asm); reflexivity).
+    by (destruct (negb (is_include_line pre) && negb asm); reflexivity).
   unfold plain_of. cbv zeta. rewrite drop_after_open. reflexivity.
 Qed.
 Print Assumptions scan_loop_open.
@@ -1083,7 +1097,7 @@ Proof.
     rewrite (split_once_none _ _ Mb), (split_once_none _ _ Mq).
     unfold plain_of. cbn [append].
     rewrite eqb_app_nonempty by exact M1.
-    destruct (negb (starts_with "#include" (trim_start mid)) && negb asm); reflexivity.
+    destruct (negb (is_include_line mid) && negb asm); reflexivity.
   - destruct mid; [contradiction|discriminate].
   - destruct mid as [|c [|d mid]]; [contradiction| |].
     + intros E. inversion E.
@@ -1353,10 +1367,10 @@ Proof.
   vm_compute. repeat split; reflexivity.
 Qed.
 
-(** ** an #include line keeps its quotes, leading white space or not *)
-Theorem include_line_not_scanned : forall asm l st,
+(** ** an #include line keeps its quotes, whatever white space precedes the '#' or follows it *)
+Theorem include_line_not_scanned_gen : forall asm l st,
   sc_in_comment st = false ->
-  starts_with "#include" (trim_start l) = true ->
+  is_include_line l = true ->
   contains "//" l = false -> contains "/*" l = false ->
   scan_line asm l st = ScanOk l true st.
 Proof.
@@ -1366,6 +1380,29 @@ Proof.
   rewrite scan_loop_code; [|exact Hc|exact E].
   rewrite (before_none _ _ Cs). cbv zeta. rewrite (split_once_none _ _ Cb).
   rewrite Hi. cbn [negb andb]. unfold plain_of. cbn [append]. rewrite E. reflexivity.
+Qed.
+Print Assumptions include_line_not_scanned_gen.
+
+Lemma is_include_line_tight (l : string) :
+  starts_with "#include" (trim_start l) = true -> is_include_line l = true.
+Proof.
+  unfold is_include_line. intros H. destruct (trim_start l) as [|h r]; [discriminate|].
+  cbn [starts_with] in H. apply andb_true_iff in H. destruct H as [H1 H2].
+  rewrite Ascii.eqb_sym, H1. cbn [andb].
+  destruct r as [|x r]; [discriminate|].
+  cbn [starts_with] in H2. apply andb_true_iff in H2. destruct H2 as [H2 H3].
+  apply Ascii.eqb_eq in H2. subst x.
+  change (trim_start (String "i"%char r)) with (String "i"%char r). exact H3.
+Qed.
+
+Theorem include_line_not_scanned : forall asm l st,
+  sc_in_comment st = false ->
+  starts_with "#include" (trim_start l) = true ->
+  contains "//" l = false -> contains "/*" l = false ->
+  scan_line asm l st = ScanOk l true st.
+Proof.
+  intros asm l st Hc Hi Cs Cb.
+  apply include_line_not_scanned_gen; try assumption. apply is_include_line_tight. exact Hi.
 Qed.
 Print Assumptions include_line_not_scanned.
 
@@ -1382,5 +1419,174 @@ Example include_leading_blanks_example :
      | PErr _ => False
      end
   /\ run_cpp [("f.h", ["int x;" ++ nl])] "m.c" [] [TAB ++ " #include " ++ """" ++ "f.h" ++ """" ++ nl]
+     = run_cpp [("f.h", ["int x;" ++ nl])] "m.c" [] ["#include " ++ """" ++ "f.h" ++ """" ++ nl].
+Proof. vm_compute. repeat split; reflexivity. Qed.
+
+(** ** blanks between '#' and the directive name *)
+
+(** [trim_start b = ""]: [b] is made of white space only *)
+Lemma trim_start_ws_app (b s : string) : trim_start b = "" -> trim_start (b ++ s) = trim_start s.
+Proof.
+  induction b as [|a b IH]; intros H; [reflexivity|].
+  cbn [trim_start] in H. cbn [append trim_start].
+  destruct (is_ws a); [exact (IH H)|discriminate].
+Qed.
+
+Lemma trim_start_idem (s : string) : trim_start (trim_start s) = trim_start s.
+Proof.
+  induction s as [|a s IH]; [reflexivity|].
+  cbn [trim_start]. destruct (is_ws a) eqn:E; [exact IH|].
+  cbn [trim_start]. rewrite E. reflexivity.
+Qed.
+
+(** at least one blank after the '#': the text becomes '#' and what follows the blanks *)
+Theorem hash_blanks_removes : forall b1 b2 rest,
+  trim_start b1 = "" -> trim_start b2 = "" -> b2 <> "" -> trim_start rest = rest ->
+  hash_blanks (b1 ++ "#" ++ b2 ++ rest) = "#" ++ rest.
+Proof.
+  intros b1 b2 rest H1 H2 Hne Hr. unfold hash_blanks.
+  rewrite (trim_start_ws_app b1 _ H1).
+  change (trim_start ("#" ++ b2 ++ rest)) with (String "#" (b2 ++ rest)).
+  change (Ascii.eqb "#" "#") with true. cbv beta iota zeta.
+  rewrite (trim_start_ws_app b2 _ H2), Hr, s_length_app.
+  destruct b2 as [|c b2]; [contradiction|]. cbn [String.length].
+  replace (Nat.eqb (String.length rest) (S (String.length b2) + String.length rest)) with false; [reflexivity|].
+  symmetry. apply Nat.eqb_neq. lia.
+Qed.
+Print Assumptions hash_blanks_removes.
+
+(** no blank after the '#': the text is left as it is, leading blanks included *)
+Theorem hash_blanks_keeps : forall b1 rest,
+  trim_start b1 = "" -> trim_start rest = rest ->
+  hash_blanks (b1 ++ "#" ++ rest) = b1 ++ "#" ++ rest.
+Proof.
+  intros b1 rest H1 Hr. unfold hash_blanks.
+  rewrite (trim_start_ws_app b1 _ H1).
+  change (trim_start ("#" ++ rest)) with (String "#" rest).
+  change (Ascii.eqb "#" "#") with true. cbv beta iota zeta.
+  rewrite Hr, Nat.eqb_refl. reflexivity.
+Qed.
+Print Assumptions hash_blanks_keeps.
+
+(** text that does not start (after white space) with '#' is left as it is *)
+Theorem hash_blanks_other : forall out,
+  starts_with "#" (trim_start out) = false -> hash_blanks out = out.
+Proof.
+  intros out H. unfold hash_blanks. destruct (trim_start out) as [|h r]; [reflexivity|].
+  cbn [starts_with] in H. rewrite andb_true_r, Ascii.eqb_sym in H. rewrite H. reflexivity.
+Qed.
+Print Assumptions hash_blanks_other.
+
+Theorem hash_blanks_idem : forall out, hash_blanks (hash_blanks out) = hash_blanks out.
+Proof.
+  intros out.
+  assert (Hc : hash_blanks out = out \/ exists r, hash_blanks out = String "#" (trim_start r)).
+  { unfold hash_blanks. destruct (trim_start out) as [|h rest]; [left; reflexivity|].
+    destruct (Ascii.eqb h "#"); [|left; reflexivity]. cbv zeta.
+    destruct (Nat.eqb (String.length (trim_start rest)) (String.length rest));
+      [left; reflexivity|right; exists rest; reflexivity]. }
+  destruct Hc as [Hc|[r Hc]]; rewrite Hc; [exact Hc|].
+  unfold hash_blanks.
+  change (trim_start (String "#" (trim_start r))) with (String "#" (trim_start r)).
+  change (Ascii.eqb "#" "#") with true. cbv beta iota zeta.
+  rewrite trim_start_idem, Nat.eqb_refl. reflexivity.
+Qed.
+Print Assumptions hash_blanks_idem.
+
+(** processing a scanned line is processing its normalised form *)
+Theorem line_body_hash_blanks : forall rec fs fname inc p line buf out ins sc,
+  line_body rec fs fname inc p line buf out ins sc
+  = line_body rec fs fname inc p line buf (hash_blanks out) ins sc.
+Proof.
+  intros. unfold line_body. cbv zeta. rewrite hash_blanks_idem. reflexivity.
+Qed.
+Print Assumptions line_body_hash_blanks.
+
+(** THE LAYOUT RULE: a scanned line  blanks # blanks rest  (at least one blank after the '#') is
+    processed exactly like  #rest : same directive, same argument, same errors, in selected and
+    in skipped groups alike *)
+Theorem directive_blank_after_hash : forall rec fs fname inc p line buf b1 b2 rest ins sc,
+  trim_start b1 = "" -> trim_start b2 = "" -> b2 <> "" -> trim_start rest = rest ->
+  line_body rec fs fname inc p line buf (b1 ++ "#" ++ b2 ++ rest) ins sc
+  = line_body rec fs fname inc p line buf ("#" ++ rest) ins sc.
+Proof.
+  intros rec fs fname inc p line buf b1 b2 rest ins sc H1 H2 Hne Hr.
+  rewrite (line_body_hash_blanks rec fs fname inc p line buf (b1 ++ "#" ++ b2 ++ rest)).
+  rewrite (line_body_hash_blanks rec fs fname inc p line buf ("#" ++ rest)).
+  rewrite (hash_blanks_removes b1 b2 rest H1 H2 Hne Hr).
+  pose proof (hash_blanks_keeps "" rest eq_refl Hr) as Hk.
+  change ("" ++ "#" ++ rest) with ("#" ++ rest) in Hk. rewrite Hk. reflexivity.
+Qed.
+Print Assumptions directive_blank_after_hash.
+
+Example define_blank_after_hash_example :
+  run_cpp [] "m.c" [] ["# define N 1" ++ nl; "N" ++ nl]
+  = run_cpp [] "m.c" [] ["#define N 1" ++ nl; "N" ++ nl]
+  /\ match run_cpp [] "m.c" [] ["# define N 1" ++ nl; "N" ++ nl] with
+     | POk p => p_out p = "1" ++ nl /\ c_macros (p_ctx p) = [("N", MObj "1")]
+     | PErr _ => False
+     end
+  /\ match run_cpp [] "m.c" [] ["  #" ++ TAB ++ " define N 1" ++ nl; "#  ifdef N" ++ nl; "N" ++ nl; "#   else" ++ nl; "x" ++ nl;
+                                " # endif" ++ nl; "#" ++ nl; "# undef N" ++ nl; "N" ++ nl] with
+     | POk p => False
+     | PErr e => er_line e = 7%N /\ er_msg e = "Unrecognised preprocessor directive"
+     end
+  /\ match run_cpp [] "m.c" [] ["  #" ++ TAB ++ " define N 1" ++ nl; "#  ifdef N" ++ nl; "N" ++ nl; "#   else" ++ nl; "x" ++ nl;
+                                " # endif" ++ nl; "# undef N" ++ nl; "N" ++ nl] with
+     | POk p => p_out p = "1" ++ nl ++ "N" ++ nl
+     | PErr _ => False
+     end.
+Proof. vm_compute. repeat split; reflexivity. Qed.
+
+(** ** the directive name of the generic dispatch: '#' and the letters that follow *)
+Lemma take_alpha_stop (rest : string) : fst (take_alpha rest) = "" -> take_alpha rest = ("", rest).
+Proof.
+  destruct rest as [|a r]; [reflexivity|]. cbn [take_alpha].
+  destruct (is_alpha a); [|reflexivity]. destruct (take_alpha r); discriminate.
+Qed.
+
+Lemma take_alpha_app (w rest : string) :
+  take_alpha w = (w, "") -> fst (take_alpha rest) = "" -> take_alpha (w ++ rest) = (w, rest).
+Proof.
+  intros Hw Hr. apply take_alpha_stop in Hr. revert Hw. induction w as [|a w IH]; intros Hw; [exact Hr|].
+  cbn [take_alpha] in Hw. cbn [append take_alpha].
+  destruct (is_alpha a); [|discriminate].
+  destruct (take_alpha w) as [w' t'] eqn:E. inversion Hw; subst w' t'.
+  rewrite (IH eq_refl). reflexivity.
+Qed.
+
+Theorem directive_name_arg_letters : forall h w rest,
+  take_alpha w = (w, "") -> fst (take_alpha rest) = "" ->
+  contains "//" (String h (w ++ rest)) = false ->
+  directive_name_arg (String h (w ++ rest))
+  = (String h w, if String.eqb (trim rest) "" then None else Some (trim rest)).
+Proof.
+  intros h w rest Hw Hr Hs. unfold directive_name_arg. rewrite (before_none _ _ Hs).
+  cbv beta iota zeta. rewrite (take_alpha_app w rest Hw Hr). reflexivity.
+Qed.
+Print Assumptions directive_name_arg_letters.
+
+Example directive_name_arg_examples :
+  directive_name_arg "#if!FOO" = ("#if", Some "!FOO")
+  /\ directive_name_arg "#if(A) // c" = ("#if", Some "(A)")
+  /\ directive_name_arg ("#include" ++ """" ++ "f.h" ++ """") = ("#include", Some ("""" ++ "f.h" ++ """"))
+  /\ directive_name_arg "#else" = ("#else", None)
+  /\ directive_name_arg ("#if" ++ TAB ++ "1 ") = ("#if", Some "1")
+  /\ directive_name_arg "#if_x" = ("#if", Some "_x")
+  /\ directive_name_arg "#" = ("#", None).
+Proof. vm_compute. repeat split. Qed.
+
+(** ** #include lines with blanks around the '#' *)
+Example include_blank_after_hash_example :
+  is_include_line ("  #  include " ++ """" ++ "f.h" ++ """" ++ nl) = true
+  /\ scan_line false ("  #  include " ++ """" ++ "f.h" ++ """" ++ nl) st0
+     = ScanOk ("  #  include " ++ """" ++ "f.h" ++ """" ++ nl) true st0
+  /\ match run_cpp [("f.h", ["int x;" ++ nl])] "m.c" [] ["  #  include " ++ """" ++ "f.h" ++ """" ++ nl; "int y;" ++ nl] with
+     | POk p => p_out p = "int x;" ++ nl ++ "int y;" ++ nl
+                /\ c_scan (p_ctx p) = mkScan false 0 []
+                /\ rev (p_map p) = [("f.h", 1%N, Some ("m.c", 1%N)); ("m.c", 2%N, None)]
+     | PErr _ => False
+     end
+  /\ run_cpp [("f.h", ["int x;" ++ nl])] "m.c" [] ["#include" ++ """" ++ "f.h" ++ """" ++ nl]
      = run_cpp [("f.h", ["int x;" ++ nl])] "m.c" [] ["#include " ++ """" ++ "f.h" ++ """" ++ nl].
 Proof. vm_compute. repeat split; reflexivity. Qed.
